@@ -419,8 +419,9 @@ func schemaDetermDriver(raw json.RawMessage) *Out {
 // ---- CompileOrder histories ------------------------------------------------------------------
 
 // orderCase is one history of spec/CompileOrder.tla.
-//   shape: packages -> files -> {decls:[type names], refs:[[pkg,type]]}
-//   calls: [{op:"new", pkgListing:[..], listing:{pkg:[file names]}} | {op:"compile", p:"x.v1"}]
+//
+//	shape: packages -> files -> {decls:[type names], refs:[[pkg,type]]}
+//	calls: [{op:"new", pkgListing:[..], listing:{pkg:[file names]}} | {op:"compile", p:"x.v1"}]
 type orderFile struct {
 	Name  string     `json:"name"`
 	Decls []string   `json:"decls"`
